@@ -154,11 +154,11 @@ def run(ctx):
     cases = []
     for i in range(ncases):
         c = W.make_case(rng, maxn=60 if i % 5 else 300, cancel=True)
-        if i % 8 == 0:
+        if i % (16 if quick else 60) == 0:
             # callbacks that ignore the cancellation for a long time: Walk must not wait for them
             c = W.make_case(rng, maxn=12, cancel=True, workers=0)
             slow = set(rng.sample(range(c["n"]), min(2, c["n"])))
-            c["latUs"] = [400000 if m in slow else 0 for m in range(c["n"])]
+            c["latUs"] = [1000000 if m in slow else 0 for m in range(c["n"])]
             c["onCancel"] = ["ignore"] * c["n"]
             c["cancelAfterEvents"] = rng.randint(0, 4)
             c["fail"] = []
@@ -187,7 +187,7 @@ def run(ctx):
             if ri is not None and ri > ci:
                 if o.get("cancelToReturnUs", -1) >= 0:
                     lat.append(o["cancelToReturnUs"])
-                if o.get("cancelToReturnUs", 0) > 200000 and o["err"] == "canceled":
+                if o.get("cancelToReturnUs", 0) > 400000 and o["err"] == "canceled":
                     oracle_fail += 1
                     ctx.violation(f"Walk returned {o['cancelToReturnUs']/1000:.0f} ms after the cancellation (callbacks that ignore the cancel must not be waited for)",
                                   {"kind": "oracle", "case": c, "impl": {k: v for k, v in o.items() if k != 'trace'}}, signature="walk-waits-after-cancel")
@@ -225,8 +225,8 @@ def run(ctx):
     ctx.coverage["evaluations"] = len(cases) + len(results)
     ctx.coverage["distinct_nontrivial"] = len({(c["family"], c["n"], c["failFast"], c["workers"], c["cancelAfterEvents"]) for c, o in zip(cases, outs) if any(e[0] == "c" for e in o.get("trace", []))}) + \
         len({(r["family"], r["signal"], r["workers"], int(r["delay"] * 10)) for r in results if r.get("interrupted")})
-    ctx.coverage["rule"] = (f"{len(cases)} in-process walks with an external cancel after a random number of trace events (one in eight with callbacks that ignore the cancel for "
-                            f"400 ms) + {len(results)} CLI builds of slow targets (0.2-0.8 s sleeps, chain/fan/diamond, 1/2/4 workers, optional directory output) hit by SIGINT or "
+    ctx.coverage["rule"] = (f"{len(cases)} in-process walks with an external cancel after a random number of trace events (some with callbacks that ignore the cancel for "
+                            f"1 s) + {len(results)} CLI builds of slow targets (0.2-0.8 s sleeps, chain/fan/diamond, 1/2/4 workers, optional directory output) hit by SIGINT or "
                             "SIGTERM after 0..2.6 s, each followed by a second build; non-trivial = cancelled before Walk returned / interrupted before the build finished")
     ctx.coverage["oracle_failures"] = oracle_fail
     ctx.coverage["disagreements"] = len(disagreements)
